@@ -1060,8 +1060,13 @@ static PyObject *ffi_init_once(FFIObject *self, PyObject *args, PyObject *kwds)
     PyThread_acquire_lock(lock, WAIT_LOCK);
     Py_END_ALLOW_THREADS
 
-    x = PyDict_GetItem(cache, tag);
-    if (x != NULL && PyTuple_GET_ITEM(x, 0) == Py_True) {
+    x = PyDict_GetItemWithError(cache, tag);
+    if (x == NULL && PyErr_Occurred()) {
+        /* comparing 'tag' with the keys failed: not the same thing as
+           "not in the dict yet", don't run 'func' */
+        res = NULL;
+    }
+    else if (x != NULL && PyTuple_GET_ITEM(x, 0) == Py_True) {
         /* the real result was put in the dict while we were waiting
            for PyThread_acquire_lock() above */
         res = PyTuple_GET_ITEM(x, 1);
